@@ -521,6 +521,9 @@ def run_sequence(args):
             lines.append(line)
             if line["rc"] == 0 and (line["consistent"] != 1 or line["tree_equal"] != 1):
                 break                      # nothing can be concluded about later steps from a broken image
+            if len(ops) == 2 and k == 0 and (line["rc"] != 0 or line.get("noop")):
+                line["pruned"] = 1
+                break                      # (refused or byte-identical no-op ; b) is the single request b, which is in the universe
     finally:
         for p in (img, img + ".pre"):
             if os.path.exists(p):
@@ -653,10 +656,13 @@ def model_check(tier, ev, vd, basedir, profiles, work):
     elif not r.ok:
         die_broken("TLC failed on MC_Tune: %s\n%s" % (r.error, r.out[-1500:]))
     # negative control: the literal (unrepaired) behaviour must violate the invariants -- the invariants are not vacuous
-    r2 = T.tlc(mod, os.path.join(SPEC, "MC_Tune_literal.cfg"), workers=4, timeout=1200, env={"PROFILES": pf}, xmx="4g")
-    ev.cov["literal_model_counterexample"] = r2.violated or "none"
-    if not r2.violated:
-        die_broken("MC_Tune_literal (Dev* = TRUE) found no counterexample: the invariants do not bind (%s)" % (r2.error,))
+    ces = []
+    for c, inv in (("MC_Tune_literal.cfg", "InvRewriteAll"), ("MC_Tune_literal_fs.cfg", "InvFeatureSet")):
+        r2 = T.tlc(mod, os.path.join(SPEC, c), workers=2, timeout=1200, env={"PROFILES": pf}, xmx="2g")
+        if r2.violated != inv:
+            die_broken("%s (Dev* = TRUE) did not produce the %s counterexample: the invariant does not bind (%s %s)" % (c, inv, r2.violated, r2.error))
+        ces.append(inv)
+    ev.cov["literal_model_counterexamples"] = ces
 
 
 def _t(what, t0):
@@ -755,8 +761,11 @@ def run(tier):
         for l in acc:
             if l["nontrivial"]:
                 ev.nontrivial((l["profile"], l["cmd"], tuple(l["before"]["feats"]), l["before"]["uuid"], l["before"]["isz"]))
-        ev.cov["rule"] = ("universe = Tune!AllOps (146 requests) x 14 populated base images, every ordering of Tune!TripleSeeds, ordered pairs over "
-                          "Tune!PairOps (quick: seeded sample of pairs and triples); non-trivial = accepted request that rewrote at least one "
+        ev.cov["pairs_reduced_to_singles"] = sum(1 for l in lines if l.get("pruned"))
+        ev.cov["rule"] = ("universe = Tune!AllOps (%d requests) x %d populated base images, every ordering of Tune!TripleSeeds (%d sets), ordered pairs over "
+                          "Tune!PairOps (%d requests) (quick: structural requests on every profile, tunables on 3 seeded profiles, seeded sample of pairs and "
+                          "triples); a pair whose first request is refused or changes no byte of the image is the single second request; non-trivial"
+                          % (len(allops), len(profiles), len(triples), len(pair)) + " = accepted request that rewrote at least one "
                           "metadata object other than the superblock copies (image bytes differ outside them); distinct by (profile, request, "
                           "feature set before, uuid class, inode size)")
         for l in [x for x in acc if x["nontrivial"]][:4]:
